@@ -55,7 +55,7 @@ type c07In struct {
 	Src   string            `json:"src"`
 	U16   bool              `json:"u16,omitempty"`
 	// Trig names a known non-termination trigger class the text matches (see
-	// c07HangTrigger). Such cases are executed in a CPU-limited child process (Mode
+	// c07HangTrigger). Such cases are executed with a small CPU budget in the sandbox process, see c07Sandboxed (Mode
 	// "isolate") so that a non-terminating compile yields a violation with a signature
 	// naming the trigger instead of an arbitrary sampled frame; beyond a fixed number per
 	// class they are not executed at all (Mode "skip") and counted as vacuous.
@@ -440,7 +440,7 @@ func c07Len(s string, u16 bool) int {
 // or "". It is a deliberately simple predicate on the input text: a `**`/`***` token
 // whose statement (rest of the line, or the map that opens on that line) contains the
 // substitution. The first few matching cases per class are still executed and judged
-// normally, only inside a CPU-limited child process; the rest are counted as not executed.
+// normally, with a 6 CPU-second budget in the sandbox process; the rest are counted as not executed.
 //
 //	(two further classes, `**.a: ${v}` with vars and a class referencing a class, were
 //	repaired in /repo — commits ddb7d26b9, f2a99de7b — and are executed normally again.)
